@@ -20,7 +20,7 @@ ASSUMPTIONS = [
     'handler tables are read through the internal names _handlers/_globals/_tasks (inconclusive if they disappear)',
     'a generator handler that yields None right after catching TimeoutError is not generated',
 ]
-REQUIRED = ['namesake_of_an_event_awaited_by_name_called_meanwhile', 'awaited_event_fired_to_two_channels', 'awaited_by_name_while_fired_to_two_channels', 'several_handlers_waiting_for_one_event_instance', 'callee_on_explicit_channel', 'callee_with_success_channels', 'falsy_value_after_call', 'call_by_object', 'wait_by_object', 'wait_by_name', 'nested_call', 'sequential_calls', 'callee_raises_plain',
+REQUIRED = ['caller_fired_an_event_after_being_resumed_that_outlives_its_handlers', 'namesake_of_an_event_awaited_by_name_called_meanwhile', 'awaited_event_fired_to_two_channels', 'awaited_by_name_while_fired_to_two_channels', 'several_handlers_waiting_for_one_event_instance', 'callee_on_explicit_channel', 'callee_with_success_channels', 'falsy_value_after_call', 'call_by_object', 'wait_by_object', 'wait_by_name', 'nested_call', 'sequential_calls', 'callee_raises_plain',
             'callee_generator_raises_first_step', 'callee_generator_raises_after_yield', 'callee_multi_handler', 'timeout_expired',
             'timeout_not_expired', 'timeout_zero', 'roots_in_flight_2plus', 'same_event_type_called_concurrently']
 REQUIRED_OBLIGATIONS = ['RESUME_ONCE', 'RESULT', 'AFTER_CALLEE', 'TIMEOUT_NOT_EARLY', 'CALLER_FEEDBACK', 'CALLER_VALUE', 'RESIDUE']
@@ -170,6 +170,18 @@ def evaluate(case, w, norm, before, after, comps):
         marks.add('roots_in_flight_2plus')
         feat.add('roots')
     # the caller's own event completes as if the handler had run synchronously
+    kids = {}
+    for u, info in w.events.items():
+        if info['parent'] is not None:
+            kids.setdefault(info['parent'], []).append(u)
+
+    def descendants(u):
+        out, todo = [], list(kids.get(u, ()))
+        while todo:
+            x = todo.pop()
+            out.append(x)
+            todo.extend(kids.get(x, ()))
+        return out
     for uid, info in w.events.items():
         hs = decl.get(info['name'], [])
         started = sorted(w.log[j][2] for j in steps.get(uid, []) if w.log[j][0] == 'HS')
@@ -187,15 +199,23 @@ def evaluate(case, w, norm, before, after, comps):
             problems.append(('CALLER_VALUE', {'event': uid, 'name': info['name'], 'expected': exp, 'observed': norm(v.value),
                                               'errors': v.errors, 'expected_errors': exp_err}))
         last = max(steps.get(uid, [-1]))
+        # "as if the handler had run synchronously": what the handler fired before AND after it was resumed are effects of its event alike,
+        # so <name>_complete comes after the last handler step of everything this event caused, directly or not
+        last_all = max([last] + [j for d in descendants(uid) for j in steps.get(d, [])])
+        if last_all > last and info['flags'].get('complete'):
+            first_rx = next((i for i, e in enumerate(w.log) if e[0] == 'RX' and e[1] == uid), None)
+            if first_rx is not None and any(e[0] == 'F' and e[2] == uid and j > first_rx for j, e in enumerate(w.log)):
+                marks.add('caller_fired_an_event_after_being_resumed_that_outlives_its_handlers')
         for flag in ('success', 'complete'):
             if not info['flags'].get(flag):
                 continue
             counts['CALLER_FEEDBACK'] += 1
             want = 0 if (flag == 'success' and exp_err) else 1
             seen = fb.get((uid, flag), [])
-            if len(seen) != want or (seen and seen[0] < last):
+            bound = last_all if flag == 'complete' else last
+            if len(seen) != want or (seen and seen[0] < bound):
                 problems.append(('CALLER_FEEDBACK', {'event': uid, 'name': info['name'], 'feedback': flag, 'seen_at': seen, 'expected': want,
-                                                     'last_handler_step_at': last}))
+                                                     'last_handler_step_at': last, 'last_step_of_anything_it_caused_at': last_all}))
     # residue
     counts['RESIDUE'] += 1
     leftovers = []
@@ -264,6 +284,23 @@ def corpus():
             HD(2, 'cl', [['yield', None]] * delay + [['call', E('job', steps=short)], ['ret', 'c']], gen=True),
             HD(3, 'job', [['yield', 'j1'], ['yieldsteps'], ['ret', 'j2']], gen=True)],
             'fires': [E('wn', flags=SF), E('cl', flags=SF)]})
+    # what a handler fires AFTER it has been resumed is as much an effect of its event as what it fired before: a fire-and-forget event
+    # whose handler keeps going for several iterations, a second call whose time-out expires while the callee keeps going, a fire from the
+    # `except TimeoutError` path - the caller's <name>_complete waits for all of them
+    LONG = HD(9, 'long', [['yield', None]] * 6 + [['ret', 'L']], gen=True)
+    for kind in ('call', 'wait', 'waitname'):
+        cs.append({'name': 'fire-after-resume-' + kind, 'handlers': [
+            HD(1, 'a', [[kind, E('b')], ['fire', E('long')], ['ret', 'end']], gen=True), HD(2, 'b', [['yield', 'b1'], ['ret', 'b2']], gen=True), dict(LONG)],
+            'fires': [E('a', flags=SF)]})
+        cs.append({'name': 'timed-out-second-call-' + kind, 'handlers': [
+            HD(1, 'a', [[kind, E('b')], ['call', E('long'), {'timeout': 1}], ['ret', 'end']], gen=True), HD(2, 'b', [['ret', 'b']]), dict(LONG)],
+            'fires': [E('a', flags=SF)]})
+    cs.append({'name': 'fire-after-timeout', 'handlers': [
+        HD(1, 'a', [['call', E('long'), {'timeout': 0}], ['fire', E('long2')], ['yield', 'x'], ['ret', 'end']], gen=True), dict(LONG),
+        HD(8, 'long2', [['yield', None]] * 9 + [['ret', 'L2']], gen=True)], 'fires': [E('a', flags=SF)]})
+    cs.append({'name': 'nested-fire-after-resume', 'handlers': [
+        HD(1, 'a', [['call', E('m')], ['ret', 'end']], gen=True), HD(2, 'm', [['wait', E('b')], ['fire', E('long')], ['ret', 'm']], gen=True),
+        HD(3, 'b', [['ret', 'b']]), dict(LONG)], 'fires': [E('a', flags=SF), E('a', flags={'complete': True})]})
     # events whose name is not the name of their class (the done notification is named after the event)
     for mk in ('attr', 'renamed'):
         cs.append(dict(cs[0], name='basic-' + mk, mk=mk))
